@@ -22,7 +22,7 @@ from ..core import Suite, Ctx, triage_exception
 from .. import tg, gen
 from ..codec import short
 from ..oracles import outcome
-from ..errtree import tree_stats
+from ..errtree import tree_stats, contains_itself
 from .c07 import multi_fault_cases
 
 ID = 'C08'
@@ -93,6 +93,10 @@ def check(case: t.Any, ctx: Ctx) -> None:
         ctx.exclude('another exception escaped (C04)')
         return
     tree = err.tree
+    if contains_itself(tree):
+        ctx.fail('render-total', 'tree-contains-itself', f"T = {nd.render()[:300]}; v = {short(v, 200)}; a node of the error tree is among its own descendants: "
+                 "rendering it cannot end")
+        return
     st_ = tree_stats(tree)
     ctx.label('rendered', f"treedepth:{min(st_['depth'], 6)}", *(k for k in ('sum', 'cause', 'dup', 'missing', 'extra', 'sum_in_product_in_sum') if st_[k]))
     ctx.nontrivial(st_['depth'] >= 3 or st_['sum_in_product_in_sum'] or st_['cause'] or st_['dup'] or st_['missing'] or st_['extra'])
@@ -355,6 +359,64 @@ def check_oddnames(case: t.Any, ctx: Ctx) -> None:
         ctx.fail('render-complete', 'odd-name', f"{name}: the text does not name {want!r}: {text[:300]!r}")
 
 
+# ---- a field given twice, whatever else is wrong with the entries -----------------------------------------------------------------
+#
+# "every ... duplicated field": decided from the *data* (the field is given under two of its input names), not from the tree - so a tree
+# which forgot the duplicate is seen.  The first and the second value are, independently, good or bad; other problems sit beside it.
+
+DUP_NAMING = ['aliases', 'in_names', 'class-in_rename']
+
+
+def dupdata_cases(shard: int, nshards: int) -> t.Iterator[t.Any]:
+    i = 0
+    for naming in DUP_NAMING:
+        for first_ok in (True, False):
+            for second_ok in (True, False):
+                for others in ('none', 'missing', 'extra', 'bad-sibling'):
+                    for where in ('bare', 'List', 'field'):
+                        if i % nshards == shard:
+                            yield [naming, first_ok, second_ok, others, where]
+                        i += 1
+
+
+def check_dupdata(case: t.Any, ctx: Ctx) -> None:
+    import pane
+    (naming, first_ok, second_ok, others, where) = case
+    key = ('dupdata', naming)
+    if key not in _HUGE_CACHE:
+        if naming == 'aliases':
+            C = type('Conn', (pane.PaneBase,), {'__annotations__': {'host_name': str, 'port': int, 'tag': str},
+                                                'host_name': pane.field(aliases=['host', 'hostname'])})
+            names = ('host_name', 'host')
+        elif naming == 'in_names':
+            C = type('Conn', (pane.PaneBase,), {'__annotations__': {'host_name': str, 'port': int, 'tag': str},
+                                                'host_name': pane.field(in_names=['host', 'hostname'])})
+            names = ('hostname', 'host')
+        else:
+            C = type('Conn', (pane.PaneBase,), {'__annotations__': {'host_name': str, 'port': int, 'tag': str}}, in_rename=('snake', 'camel'))
+            names = ('host_name', 'hostName')
+        Outer = type('Outer', (pane.PaneBase,), {'__annotations__': {'conn': C}})
+        _HUGE_CACHE[key] = (C, Outer, names)
+    (C, Outer, (n1, n2)) = _HUGE_CACHE[key]
+    ctx.label(f"duplicate:{naming}", f"first-{'ok' if first_ok else 'bad'}", f"second-{'ok' if second_ok else 'bad'}", others, where)
+    ctx.nontrivial(not first_ok or others != 'none')
+    d: t.Dict[str, t.Any] = {n1: 'a' if first_ok else 5, 'port': 80 if others != 'bad-sibling' else 'eighty', n2: 'b' if second_ok else [None]}
+    if others != 'missing':
+        d['tag'] = 't'
+    if others == 'extra':
+        d['colour'] = 1
+    (T, v) = {'bare': (C, d), 'List': (t.List[C], [d]), 'field': (Outer, {'conn': d})}[where]
+    ctx.evaluated()
+    (k, e) = outcome(lambda: pane.from_data(v, T))
+    ident = f"class Conn(host_name: str [{naming}: also {n2!r}], port: int, tag: str); from_data({v!r}, {where})"
+    if k != 'ce':
+        ctx.fail('render-complete', f"duplicate-in-data:{'accepted' if k == 'ok' else type(e).__name__}", f"{ident}: {k} {short(e, 150)}; a field given twice is refused with ConvertError")
+        return
+    text = str(e)
+    if not any('uplicate' in line and n2 in line for line in text.splitlines()):
+        ctx.fail('render-complete', 'duplicate-in-data', f"{ident}: the data gives field host_name a second time under {n2!r}, but no line of the text says so: {text[:400]!r}")
+
+
 def suites(tier: str) -> t.List[Suite]:
     big = tier == 'thorough'
     leaves = 8 if big else 4
@@ -363,6 +425,8 @@ def suites(tier: str) -> t.List[Suite]:
               budget_s=480 if big else 40, render=gen.render_case),
         Suite('huge-ints', check_huge, cases=huge_cases, exhaustive=True, budget_s=120,
               render=lambda c: {'type': c[0], 'where': c[1], 'value': f"{'-' if c[3] < 0 else ''}10**{c[2]}"}),
+        Suite('duplicates-in-data', check_dupdata, cases=dupdata_cases, exhaustive=True, budget_s=60,
+              render=lambda c: {'naming': c[0], 'first value ok': c[1], 'second value ok': c[2], 'beside it': c[3], 'where': c[4]}),
         Suite('odd-names', check_oddnames, cases=oddname_cases, exhaustive=True, budget_s=30, render=lambda c: {'case': c[0]}),
         Suite('across-hash-seeds', check_batch, strategy=lambda: batch_cases(gen.all_type_specs(leaves)), examples=40 if big else 4,
               budget_s=300 if big else 30, render=lambda b: {'batch_of': len(b), 'first': gen.render_case(b[0])}),
